@@ -36,12 +36,18 @@ Inductive dres (A : Type) := DOk (a : A) | DErr (e : dexc).
 Arguments DOk {A} a.
 Arguments DErr {A} e.
 
+(** Types as far as they matter here: a string annotation (not yet resolved) or an
+    object ([attrs.resolve_types] turns the first into the second, IN PLACE, in the
+    Attribute objects of the class it is called for). *)
+Inductive ty := TStr (n : string) | TObj (n : string).
+
 (** ** Arguments of [attrib()] as the caller writes them *)
 
 (** [validator=] / [converter=]: nothing, one callable, a list literal, or a list
     object the caller keeps (index into [w_lists]). *)
 Inductive seqarg := SNone | SOne (s : sym) | SLit (l : list sym) | SList (id : nat)
-                   | SConv (id : nat).   (* an attrs.Converter(...) INSTANCE the caller keeps *)
+                   | SConv (id : nat)    (* an attrs.Converter(...) INSTANCE the caller keeps *)
+                   | SOpt (s : sym).     (* converters.optional(s): a fresh wrapper closure *)
 Inductive hookarg := HANone | HANoOp | HASeq (a : seqarg).
 Inductive metaarg := MANone | MALit (ks : list string) | MADict (id : nat).
 
@@ -58,6 +64,7 @@ Record counting_attr := {
   ca_default : bool;
   ca_vals : list sym;          (* [_validator]: [] = None, else the members of the and_ *)
   ca_convs : list sym;         (* [converter]: [] = None, else the members of the pipe *)
+  ca_cann : option ty;         (* annotation of the converter object's first parameter *)
   ca_hook : on_setattr;
   ca_kw : bool; ca_init : bool;
   ca_meta : metaref }.
@@ -68,6 +75,7 @@ Inductive metaval := MVCopy (ks : list string) | MVAlias (id : nat).
 
 Record fattr := {
   fa_name : string; fa_default : bool; fa_vals : list sym; fa_convs : list sym;
+  fa_cann : option ty; fa_type : option ty;
   fa_hook : on_setattr; fa_kw : bool; fa_init : bool; fa_meta : metaval; fa_inh : bool }.
 
 (** ** Decorator objects *)
@@ -114,11 +122,13 @@ Inductive entry :=
 | EVal                         (* x = 5 *)
 | ENoVal.                      (* annotation only *)
 
-Record fdecl := { fd_name : string; fd_entry : entry; fd_ann : bool; fd_cv : bool }.
+Record fdecl := { fd_name : string; fd_entry : entry; fd_ann : bool; fd_cv : bool;
+                  fd_ty : ty (* the annotation, when [fd_ann] *) }.
 
 (** A field of a base class (an Attribute made earlier: it holds copies only). *)
 Record battr := {
   ba_name : string; ba_default : bool; ba_vals : list sym; ba_convs : list sym;
+  ba_cann : option ty; ba_type : option ty;
   ba_hook : on_setattr; ba_kw : bool; ba_init : bool; ba_meta : list string }.
 
 Record base_info := {
@@ -143,6 +153,7 @@ Record cflags := {
 Record class_obj := {
   co_cd : list (string * cdval);
   co_anns : list (string * bool);       (* name, is ClassVar *)
+  co_tys : list (string * ty);          (* the annotations themselves *)
   co_f : cflags }.
 Definition co_hash c := cf_hash (co_f c).
 Definition co_eq c := cf_eq (co_f c).
@@ -167,6 +178,7 @@ Record cls_result := {
   r_eq : bool;                 (* __eq__ generated *)
   r_setattr : sa_dec;
   r_init : bool;               (* __init__ generated (else __attrs_init__) *)
+  r_init_ann : list (string * option ty);   (* __init__.__annotations__, fixed when the script is made *)
   r_pre : bool; r_post : bool;
   r_slots : bool;
   r_cf : cflags }.            (* what the body and the bases themselves provide *)
@@ -176,6 +188,7 @@ Inductive cls_outcome := Raised (e : dexc) | Built (r : cls_result).
 (** An [attrs.Converter] instance: the wrapped callable, the two flags and the
     (unused by the current code) [_global_name] slot. *)
 Record conv_obj := { cv_sym : sym; cv_takes_self : bool; cv_takes_field : bool;
+                     cv_first_param_type : option ty;
                      cv_global_name : option string }.
 
 (** ** The world *)
@@ -227,7 +240,8 @@ Fixpoint set_nth {A : Type} (n : nat) (x : A) (l : list A) : list A :=
   end.
 
 Definition dummy_ca : counting_attr :=
-  {| ca_counter := 0; ca_default := false; ca_vals := []; ca_convs := []; ca_hook := OsNone;
+  {| ca_counter := 0; ca_default := false; ca_vals := []; ca_convs := []; ca_cann := None;
+     ca_hook := OsNone;
      ca_kw := false; ca_init := true; ca_meta := MOwn [] |}.
 
 (** ** [attrib()] *)
@@ -246,6 +260,32 @@ Definition resolve_seq (w : world) (a : seqarg) : list sym :=
   | SLit l => l
   | SList id => nth id (w_lists w) []
   | SConv id => match nth_error (w_convs w) id with Some c => [cv_sym c] | None => [] end
+  | SOpt s => [s]
+  end.
+
+(** The annotation table of the user's converter callables (an oracle: what
+    [inspect.signature] shows for each function object; the harness's recording
+    converters "c1" and "c3" are annotated, "c2" is not — all three are closures of ONE
+    [def], i.e. share their code object and differ in [__annotations__]). *)
+Definition conv_ann (s : sym) : option ty :=
+  if String.eqb s "c1" then Some (TObj "str")
+  else if String.eqb s "c3" then Some (TObj "int") else None.
+
+Definition opt_ty (t : ty) : ty :=
+  match t with TStr n => TObj ("typing.Optional[" ++ n ++ "]") | TObj n => TObj ("typing.Optional[" ++ n ++ "]") end.
+
+(** First-parameter annotation of the converter OBJECT the field ends up with:
+    the callable itself, the [pipe_converter] closure ([pipe] copies the first member's
+    parameter annotation into the closure's [__annotations__]), the [optional] closure,
+    or what the Converter instance read when it was made. *)
+Definition converter_ann (w : world) (a : seqarg) : option ty :=
+  match a with
+  | SNone => None
+  | SOne s => conv_ann s
+  | SLit l => match l with s :: _ => conv_ann s | [] => None end
+  | SList id => match nth id (w_lists w) [] with s :: _ => conv_ann s | [] => None end
+  | SConv id => match nth_error (w_convs w) id with Some c => cv_first_param_type c | None => None end
+  | SOpt s => option_map opt_ty (conv_ann s)
   end.
 
 Definition resolve_hook (w : world) (a : hookarg) : on_setattr :=
@@ -267,14 +307,15 @@ Definition attrib (w : world) (a : attrib_args) : world * counting_attr :=
   (set_counter w c,
    {| ca_counter := c; ca_default := aa_default a;
       ca_vals := resolve_seq w (aa_v a); ca_convs := resolve_seq w (aa_c a);
+      ca_cann := converter_ann w (aa_c a);
       ca_hook := resolve_hook w (aa_h a);
       ca_kw := aa_kw a; ca_init := aa_init a; ca_meta := resolve_meta (aa_m a) |}).
 
 (** [_CountingAttr.validator(meth)]: a NEW and_ object replaces the old one. *)
 Definition ca_add_validator (c : counting_attr) (s : sym) : counting_attr :=
   {| ca_counter := ca_counter c; ca_default := ca_default c; ca_vals := ca_vals c ++ [s];
-     ca_convs := ca_convs c; ca_hook := ca_hook c; ca_kw := ca_kw c; ca_init := ca_init c;
-     ca_meta := ca_meta c |}.
+     ca_convs := ca_convs c; ca_cann := ca_cann c; ca_hook := ca_hook c; ca_kw := ca_kw c;
+     ca_init := ca_init c; ca_meta := ca_meta c |}.
 
 (** ** Executing a class statement *)
 
@@ -296,10 +337,17 @@ Fixpoint exec_fields (w : world) (fs : list fdecl) : world * list (string * cdva
 
 Definition anns_of (fs : list fdecl) : list (string * bool) :=
   flat_map (fun f => if fd_ann f then [(fd_name f, fd_cv f)] else []) fs.
+Definition tys_of (fs : list fdecl) : list (string * ty) :=
+  flat_map (fun f => if fd_ann f then [(fd_name f, fd_ty f)] else []) fs.
+Fixpoint lookup_ty (n : string) (l : list (string * ty)) : option ty :=
+  match l with
+  | [] => None
+  | (k, t) :: r => if String.eqb n k then Some t else lookup_ty n r
+  end.
 
 Definition exec_body (w : world) (b : class_body) : world * class_obj :=
   let '(w1, cd) := exec_fields w (cb_fields b) in
-  (w1, {| co_cd := cd; co_anns := anns_of (cb_fields b);
+  (w1, {| co_cd := cd; co_anns := anns_of (cb_fields b); co_tys := tys_of (cb_fields b);
           co_f := {| cf_hash := cb_hash b; cf_eq := cb_eq b; cf_setattr := cb_setattr b;
                      cf_init := cb_init b; cf_pre := cb_pre b; cf_post := cb_post b;
                      cf_base := cb_base b |} |}).
@@ -316,20 +364,22 @@ Definition meta_copy (w : world) (m : metaref) : metaval :=
 
 (** [Attribute.from_counting_attr]: a NEW Attribute from the fields of the
     counting attr; nothing is written to the counting attr. *)
-Definition from_counting_attr (mc : world -> metaref -> metaval) (w : world) (name : string)
-  (c : counting_attr) : fattr :=
+Definition from_counting_attr (mc : world -> metaref -> metaval) (w : world)
+  (tys : list (string * ty)) (name : string) (c : counting_attr) : fattr :=
   {| fa_name := name; fa_default := ca_default c; fa_vals := ca_vals c; fa_convs := ca_convs c;
+     fa_cann := ca_cann c; fa_type := lookup_ty name tys;   (* anns.get(attr_name) *)
      fa_hook := ca_hook c; fa_kw := ca_kw c; fa_init := ca_init c;
      fa_meta := mc w (ca_meta c); fa_inh := false |}.
 
 Definition evolve_kw (a : fattr) : fattr :=
   {| fa_name := fa_name a; fa_default := fa_default a; fa_vals := fa_vals a;
-     fa_convs := fa_convs a; fa_hook := fa_hook a; fa_kw := true; fa_init := fa_init a;
+     fa_convs := fa_convs a; fa_cann := fa_cann a; fa_type := fa_type a;
+     fa_hook := fa_hook a; fa_kw := true; fa_init := fa_init a;
      fa_meta := fa_meta a; fa_inh := fa_inh a |}.
 (** A base field as collected by [_collect_base_attrs]: [a.evolve(inherited=True)]. *)
 Definition evolve_inh (a : battr) : fattr :=
   {| fa_name := ba_name a; fa_default := ba_default a; fa_vals := ba_vals a;
-     fa_convs := ba_convs a; fa_hook := ba_hook a; fa_kw := ba_kw a; fa_init := ba_init a;
+     fa_convs := ba_convs a; fa_cann := ba_cann a; fa_type := ba_type a; fa_hook := ba_hook a; fa_kw := ba_kw a; fa_init := ba_init a;
      fa_meta := MVCopy (ba_meta a); fa_inh := true |}.
 
 (** Stable insertion sort by counter: [sorted(..., key=lambda e: e[1].counter)]. *)
@@ -427,7 +477,7 @@ Definition transform_attrs (mc : world -> metaref -> metaval) (w : world)
   match ca_list with
   | DErr e => (w1, DErr e)
   | DOk ca_list =>
-      let own := map (fun e => from_counting_attr mc w1 (fst e) (snd e)) ca_list in
+      let own := map (fun e => from_counting_attr mc w1 (co_tys cls) (fst e) (snd e)) ca_list in
       let taken := map fa_name own in
       let base := map evolve_inh
                       (filter (fun a => negb (mem_str (ba_name a) taken)) (bi_attrs (co_base cls))) in
@@ -471,6 +521,15 @@ Definition sa_attrs (eff : cls_on_setattr) (attrs : list fattr) : list (string *
 Definition init_script_rejects (is_frozen : bool) (eff : cls_on_setattr) (attrs : list fattr) : bool :=
   (is_frozen && has_cls_on_setattr eff)
   || (is_frozen && existsb (fun a => negb (os_is_none (fa_hook a))) attrs).
+
+(** [_attrs_to_init_script]: the annotation of each [__init__] parameter. *)
+Definition init_annotations (attrs : list fattr) : list (string * option ty) :=
+  flat_map (fun a => if fa_init a
+                     then [(fa_name a, match fa_convs a with
+                                       | [] => fa_type a                 (* a.type, no converter *)
+                                       | _ => fa_cann a                  (* converter._first_param_type *)
+                                       end)]
+                     else []) attrs.
 
 (** ** [attrs()]: the factory *)
 
@@ -555,7 +614,7 @@ Definition attrs_wrap_gen (sticky_hash : bool) (mc : world -> metaref -> metaval
              end in
       (c', w1,
        Built {| r_fields := attrs; r_hash := hash_dec; r_eq := gen_eq; r_setattr := sa;
-                r_init := gen_init;
+                r_init := gen_init; r_init_ann := init_annotations attrs;
                 r_pre := co_pre cls || bi_pre base; r_post := co_post cls || bi_post base;
                 r_slots := ac_slots c; r_cf := co_f cls |})
   end.
@@ -653,7 +712,7 @@ Definition make_class_gen (pop_from_caller : bool) (w : world) (m : mc_args)
   (* body = {}; body.update(class_body); body[...] = popped hooks *)
   let body := match mk_body m with Some id => nth id (w_dicts w) [] | None => [] end in
   let cls :=
-    {| co_cd := []; co_anns := [];
+    {| co_cd := []; co_anns := []; co_tys := [];
        co_f := {| cf_hash := dict_has "__hash__" body; cf_eq := dict_has "__eq__" body;
                   cf_setattr := dict_has "__setattr__" body;
                   cf_init := dict_has "__init__" body || user_init;
@@ -683,6 +742,26 @@ Definition make_class := make_class_gen false.
 
 Inductive deco_kind := KS | KDefine.
 
+(** Operations on an existing class: [attrs.resolve_types(cls)] writes the resolved
+    types into the class's own Attribute objects; [fields()], [fields_dict()],
+    [Attribute.evolve] (a copy), [validate(inst)], [asdict(inst)] only read. *)
+Inductive class_op := CResolve | CPure.
+
+Definition resolve_ty (t : ty) : ty := match t with TStr n => TObj n | TObj n => TObj n end.
+Definition resolve_fattr (a : fattr) : fattr :=
+  {| fa_name := fa_name a; fa_default := fa_default a; fa_vals := fa_vals a;
+     fa_convs := fa_convs a; fa_cann := fa_cann a; fa_type := option_map resolve_ty (fa_type a);
+     fa_hook := fa_hook a; fa_kw := fa_kw a; fa_init := fa_init a;
+     fa_meta := fa_meta a; fa_inh := fa_inh a |}.
+Definition cop_outcome (c : class_op) (o : cls_outcome) : cls_outcome :=
+  match c, o with
+  | CResolve, Built r =>
+      Built {| r_fields := map resolve_fattr (r_fields r); r_hash := r_hash r; r_eq := r_eq r;
+               r_setattr := r_setattr r; r_init := r_init r; r_init_ann := r_init_ann r;
+               r_pre := r_pre r; r_post := r_post r; r_slots := r_slots r; r_cf := r_cf r |}
+  | _, _ => o
+  end.
+
 Inductive op :=
 (* what the caller does with its own objects *)
 | OAttrib (a : attrib_args)                 (* keep an attr.ib(...) object *)
@@ -699,10 +778,13 @@ Inductive op :=
 | ODictDel (id : nat) (k : string)
 (* definitions *)
 | OApply (d : nat) (b : class_body)
-| OMakeClass (m : mc_args).
+| OMakeClass (m : mc_args)
+(* what the public API offers on a class that exists already (target = its number) *)
+| OClassOp (c : class_op) (t : nat).
 
 Definition is_def (o : op) : bool :=
   match o with OApply _ _ | OMakeClass _ => true | _ => false end.
+Definition is_cop (o : op) : bool := match o with OClassOp _ _ => true | _ => false end.
 
 Definition dict_set (k : string) (v : dval) (d : pydict) : pydict :=
   if dict_has k d then map (fun e => if String.eqb k (fst e) then (k, v) else e) d
@@ -719,7 +801,7 @@ Definition step (w : world) (o : op) : world :=
   | ONewDict d => set_dicts w (w_dicts w ++ [d])
   | ONewConv s ts tf =>
       set_convs w (w_convs w ++ [{| cv_sym := s; cv_takes_self := ts; cv_takes_field := tf;
-                                    cv_global_name := None |}])
+                                    cv_first_param_type := conv_ann s; cv_global_name := None |}])
   | OListAppend id s => set_lists w (set_nth id (nth id (w_lists w) [] ++ [s]) (w_lists w))
   | OMetaSet id k =>
       let m := nth id (w_metas w) [] in
@@ -733,34 +815,53 @@ Definition step (w : world) (o : op) : world :=
       let '(d', w2, o) := apply_deco w1 (nth d (w_decos w1) (DInvalid EOther)) cls in
       set_defs (set_decos w2 (set_nth d d' (w_decos w2))) (w_defs w2 ++ [o])
   | OMakeClass m => let '(w1, o) := make_class w m in set_defs w1 (w_defs w1 ++ [o])
+  | OClassOp c t =>
+      match nth_error (w_defs w) t with
+      | Some o => set_defs w (set_nth t (cop_outcome c o) (w_defs w))
+      | None => w
+      end
   end.
 
 Definition run (w : world) (ops : list op) : world := fold_left step ops w.
 
 Definition n_defs (ops : list op) : nat := List.length (filter is_def ops).
 
-(** The history of definition number [k] without the other definitions. *)
-Fixpoint alone (k : nat) (ops : list op) : list op :=
+(** After definition [t]: only the class operations on [t] itself, which is class
+    number 0 of the reduced history. *)
+Fixpoint keep_self (t : nat) (ops : list op) : list op :=
+  match ops with
+  | [] => []
+  | OClassOp c t' :: r => if Nat.eqb t' t then OClassOp c 0 :: keep_self t r else keep_self t r
+  | _ :: r => keep_self t r
+  end.
+
+(** The history of definition number [t] without the other definitions ([i] = number
+    of definitions seen so far): the caller's operations on its own objects before it,
+    the definition, and the class operations on the class itself afterwards.  Class
+    operations on OTHER classes are dropped together with those classes. *)
+Fixpoint alone_from (i t : nat) (ops : list op) : list op :=
   match ops with
   | [] => []
   | o :: r =>
-      if is_def o then
-        match k with O => [o] | S k' => alone k' r end
-      else o :: alone k r
+      if is_def o then (if Nat.eqb i t then o :: keep_self t r else alone_from (S i) t r)
+      else if is_cop o then alone_from i t r
+      else o :: alone_from i t r
   end.
+Definition alone (k : nat) (ops : list op) : list op := alone_from 0 k ops.
 
 (** ** Behaviour fingerprint: what can be observed of a class from outside *)
 
 Inductive kind := KAbsent | KNone | KOwn | KGen.
 Inductive asg := AFrozen | AFired (l : list sym).
 
-Record ffp := { p_n : string; p_kw : bool; p_d : bool; p_init : bool;
+Record ffp := { p_n : string; p_kw : bool; p_d : bool; p_init : bool; p_ty : option ty;
                 p_v : list sym; p_c : list sym; p_m : list string; p_inh : bool }.
 
 Record fp := {
   fp_fields : list ffp;
   fp_hash : kind; fp_eq : kind; fp_init : kind;
   fp_sig : option (list (string * bool * bool));   (* name, keyword-only, has default *)
+  fp_ann : option (list (string * option ty));     (* __init__.__annotations__ per parameter *)
   fp_pre : bool; fp_post : bool; fp_owninit : bool;
   fp_hashes : option bool;
   fp_initconv : option (list (string * option (list sym)));  (* per field after construction:
@@ -774,7 +875,7 @@ Definition meta_now (w : world) (m : metaval) : list string :=
   match m with MVCopy ks => ks | MVAlias id => nth id (w_metas w) [] end.
 
 Definition ffp_of (w : world) (a : fattr) : ffp :=
-  {| p_n := fa_name a; p_kw := fa_kw a; p_d := fa_default a; p_init := fa_init a;
+  {| p_n := fa_name a; p_kw := fa_kw a; p_d := fa_default a; p_init := fa_init a; p_ty := fa_type a;
      p_v := fa_vals a; p_c := fa_convs a; p_m := meta_now w (fa_meta a); p_inh := fa_inh a |}.
 
 Definition fire (a : fattr) (h : hook) : list sym :=
@@ -813,6 +914,7 @@ Definition observe (w : world) (o : cls_outcome) : fprint :=
       FOk {| fp_fields := map (ffp_of w) (r_fields r);
              fp_hash := hk; fp_eq := ek; fp_init := ik;
              fp_sig := if r_init r then Some sig else None;
+             fp_ann := if r_init r then Some (r_init_ann r) else None;
              fp_pre := r_init r && r_pre r; fp_post := r_init r && r_post r;
              fp_owninit := negb (r_init r) && cf_init cls;
              fp_hashes :=
